@@ -1,6 +1,7 @@
 package main
 
 import (
+	"context"
 	"fmt"
 	"math/rand"
 	"sync"
@@ -240,5 +241,80 @@ func queuedBehindSave(r *ev.Run, e *etcdx.Etcd, seed int64) {
 	wg.Wait()
 	if judged == 0 {
 		r.Inconclusive("queued-behind-save phase: no round reached a serving successor")
+	}
+}
+
+// usurpedOwner: member A is the leader with a valid lease and a saved window W_A; the leader record
+// is taken away behind its back (deleted, member B campaigns and wins) while A's lease is still
+// valid locally, and B persists a window far ahead. A's lease check alone cannot stop A from
+// granting inside W_A, but A can never save a window again, so nothing A grants may reach W_A: the
+// window extension that A needs once the clock arrives there must be refused.
+func usurpedOwner(r *ev.Run, e *etcdx.Etcd, seed int64) {
+	rounds := r.Pick(3, 12)
+	judged := 0
+	for i := 0; i < rounds; i++ {
+		rng := rand.New(rand.NewSource(seed + int64(i)))
+		x, err := newRun(r, e, rng, fmt.Sprintf("/c03/u%02d_%04d_", r.Shard, i), 2)
+		if err != nil {
+			r.Inconclusive("world: %v", err)
+			return
+		}
+		x.w.Lease = 5
+		a, b := x.w.Members[0], x.w.Members[1]
+		if a.Campaign(true) != nil || a.Alloc.Initialize(0) != nil {
+			x.w.Close()
+			continue
+		}
+		x.w.TSO(0, a, 1, 0)
+		wA, berr := x.w.DurableBound()
+		if berr != nil || wA == 0 {
+			x.w.Close()
+			continue
+		}
+		// the record changes hands behind A's back
+		e.Observer.Delete(context.Background(), x.w.LeaderKey())
+		if b.Campaign(true) != nil || b.Alloc.Initialize(0) != nil {
+			a.Resign()
+			x.w.Close()
+			continue
+		}
+		ahead := []time.Duration{10 * time.Minute, 3 * time.Second, 200 * time.Millisecond}[i%3]
+		b.Alloc.SetTSO(tsoutil.GenerateTS(tsoutil.GenerateTimestamp(time.Now().Add(ahead), 0)))
+		// the clock reaches W_A: A's periodic update has to extend the window now
+		time.Sleep(70 * time.Millisecond)
+		var updErrs []string
+		granted := 0
+		for k := 0; k < 4; k++ {
+			if uerr := a.Alloc.UpdateTSO(); uerr != nil {
+				updErrs = append(updErrs, uerr.Error())
+			} else {
+				updErrs = append(updErrs, "")
+			}
+			ts, terr := x.w.TSO(0, a, 1, 0)
+			if terr == nil {
+				granted++
+				if ts.Physical*int64(time.Millisecond) >= wA {
+					r.Violation("grant-beyond-last-owned-window-by-member-without-leader-record",
+						fmt.Sprintf("member a lost the leader record to member b (deleted, b campaigned) while its lease was valid; the last window a saved as owner ends at %d ns, yet a granted physical %d ms (its window extensions returned %q)", wA, ts.Physical, updErrs),
+						map[string]interface{}{"round": i, "root": x.w.Root, "b_moved_ahead_by": ahead.String(), "a_owned_window_ns": wA, "granted_physical_ms": ts.Physical, "update_results": updErrs})
+					break
+				}
+			}
+			time.Sleep(20 * time.Millisecond)
+		}
+		judged++
+		r.Eval(1)
+		r.Count("usurped_owner_rounds", 1)
+		r.Count("usurped_owner_grants_inside_own_window", int64(granted))
+		r.Distinct(fmt.Sprintf("usurped-owner|ahead=%s", ahead))
+		b.Resign()
+		a.Resign()
+		x.w.Close()
+		if r.Violations() > 0 {
+			return
+		}
+	}
+	if judged == 0 {
+		r.Inconclusive("usurped-owner phase: no round could be set up")
 	}
 }
